@@ -460,12 +460,11 @@ func legVisor(r *vf.Run) {
 	}
 	sizes := []uint64{1, 2, 3, 7, 10, 33, 99, 100}
 	if !r.Quick() {
-		sizes = nil
-		for s := uint64(1); s <= 100; s++ {
-			sizes = append(sizes, s)
-		}
+		sizes = []uint64{1, 2, 3, 4, 5, 6, 7, 8, 9, 10, 11, 13, 16, 20, 25, 32, 33, 50, 64, 75, 90, 98, 99, 100}
 	}
-	for _, q := range queries {
+	// queries are read-only database views and run concurrently
+	vf.Parallel(len(queries), workers, func(qi int) {
+		q := queries[qi]
 		flts := fx.filters(q)
 		attrs := func(extra ...string) map[string]string {
 			m := map[string]string{"leg": "visor", "query": q.String()}
@@ -477,7 +476,7 @@ func legVisor(r *vf.Run) {
 		full, _, err := fx.v.GetTransactions(flts, q.order, nil)
 		if err != nil {
 			r.Violation("query-error", attrs("err", err.Error(), "page", "nil"), nil)
-			continue
+			return
 		}
 		// the unpaged list: de-duplicated, and as a set what the shadow says
 		want := fx.expectedSet(q)
@@ -604,7 +603,7 @@ func legVisor(r *vf.Run) {
 			r.Count("visor.lists_reassembled", 1)
 			r.Distinct(fmt.Sprintf("v:%s:%d", q.String(), size))
 		}
-	}
+	})
 	r.Sample(map[string]interface{}{"leg": "visor", "blocks": nBlocks, "addresses": len(fx.addrs), "queries": len(queries), "page_sizes": len(sizes)})
 }
 
